@@ -138,6 +138,10 @@ def doLine (d : D) (ws : List String) : D × String :=
   | ["connect", n] =>
       let (s1, r) := stepX s (Op.connect (n.toNat?.getD 0))
       ({ d with s := s1 }, match r with | Res.id l => s!"connect C{l}" | _ => "bad-op")
+  | ["connectl", n] =>
+      -- the callable is an lvalue which the caller destroys right after connect() returned: the connection owns a copy
+      let (s1, r) := stepX s (Op.connectL (n.toNat?.getD 0))
+      ({ d with s := s1 }, match r with | Res.id l => s!"connectl C{l}" | _ => "bad-op")
   | "emit" :: fl :: v :: rest =>
       let (s1, r) := stepX s (Op.emit (fl == "lv") (v.toNat?.getD 0))
       match r with
